@@ -19,7 +19,7 @@ FeedIds == {"f1", "f2"}
 Colls   == {"c0", "c1"}
 Modes   == {"CreateOrOpen", "CreateNew", "ReOpenExisting"}
 
-NoStore == [exists |-> FALSE, docs |-> [c \in Colls |-> {}]]
+NoStore == [exists |-> FALSE, docs |-> [c \in Colls |-> {}], dd |-> FALSE]
 NoHandle == [st |-> "free", n |-> "-", u |-> "-", stale |-> FALSE]
 NoFeed == [st |-> "none", n |-> "-", u |-> "-", colls |-> {}, kind |-> "-", done |-> FALSE]
 
@@ -57,6 +57,7 @@ Expect(S, a) ==
             IF hd.st = "open" THEN (IF hd.stale /\ a.c = "c1" THEN "any" ELSE "ok")
             ELSE IF hd.st = "closed" THEN "closed" ELSE "any"
       [] a.kind = "Drop" -> IF hd.st = "open" THEN "ok" ELSE IF hd.st = "closed" THEN "closed" ELSE "any"
+      [] a.kind = "PutDDoc" -> IF hd.st = "open" THEN (IF hd.stale THEN "any" ELSE "ok") ELSE IF hd.st = "closed" THEN "closed" ELSE "any"
       [] a.kind = "StartFeed" -> IF hd.st = "open" THEN "ok" ELSE IF hd.st = "closed" THEN "closed" ELSE "any"
       [] a.kind = "StopFeed" -> "ok"
       [] OTHER -> "any"
@@ -73,7 +74,7 @@ Apply(S, a) ==
            IF ExpectOpen(S, a.n, a.u, a.mode) # "ok" THEN S
            ELSE [S EXCEPT !.reg[a.n] = [url |-> a.u, cnt |-> S.reg[a.n].cnt + 1],
                           !.store[a.n][a.u] = IF S.store[a.n][a.u].exists THEN S.store[a.n][a.u]
-                                               ELSE [exists |-> TRUE, docs |-> [c \in Colls |-> {}]],
+                                               ELSE [exists |-> TRUE, docs |-> [c \in Colls |-> {}], dd |-> FALSE],
                           !.hs[a.h] = [st |-> "open", n |-> a.n, u |-> a.u, stale |-> FALSE]]
       [] a.kind = "Close" ->
            IF hd.st # "open" THEN S      \* closing a closed (or dead) handle again changes nothing
@@ -96,6 +97,7 @@ Apply(S, a) ==
       [] a.kind = "Drop" ->       \* DropDataStore(c1): its documents and feeds go; other handles' cached collection is stale
            IF hd.st # "open" THEN S
            ELSE [S EXCEPT !.store[hd.n][hd.u].docs["c1"] = {},
+                          !.store[hd.n][hd.u].dd = FALSE,      \* the collection's design documents go with it
                           !.hs = [h \in Handles |-> IF h # a.h /\ S.hs[h].n = hd.n /\ S.hs[h].st = "open"
                                                     THEN [S.hs[h] EXCEPT !.stale = TRUE] ELSE S.hs[h]],
                           !.fd = [f \in FeedIds |->
@@ -110,6 +112,8 @@ Apply(S, a) ==
                     ELSE [st |-> "running", n |-> hd.n, u |-> hd.u,
                           colls |-> IF a.fk = "multi" THEN Colls ELSE IF a.fk = "bucket" THEN {"c0"} ELSE {a.c},
                           kind |-> a.fk, done |-> FALSE]]
+      [] a.kind = "PutDDoc" ->     \* a design document on collection c1
+           IF hd.st # "open" \/ hd.stale THEN S ELSE [S EXCEPT !.store[hd.n][hd.u].dd = TRUE]
       [] a.kind = "StopFeed" ->
            IF S.fd[a.f].st = "running" THEN [S EXCEPT !.fd[a.f].st = "ended", !.fd[a.f].done = TRUE] ELSE S
       [] OTHER -> S
@@ -121,6 +125,7 @@ Enabled(S) ==
     \cup {Act("CloseAndDelete", h, "-", "-", "-", "-", "-", "-") : h \in {x \in Handles : S.hs[x].st = "open"}}
     \cup {Act("Write", h, "-", "-", "-", c, "-", "-") : h \in {x \in Handles : S.hs[x].st \in {"open", "closed"}}, c \in Colls}
     \cup {Act("Drop", h, "-", "-", "-", "c1", "-", "-") : h \in {x \in Handles : S.hs[x].st = "open"}}
+    \cup {Act("PutDDoc", h, "-", "-", "-", "c1", "-", "-") : h \in {x \in Handles : S.hs[x].st = "open"}}
     \cup {Act("StartFeed", h, "-", "-", "-", c, f, fk) : h \in {x \in Handles : S.hs[x].st \in {"open", "closed"}},
               c \in Colls, f \in {x \in FeedIds : S.fd[x].st = "none"}, fk \in {"live", "dump", "multi", "bucket"}}
     \cup {Act("StopFeed", "h1", "-", "-", "-", "-", f, "-") : f \in {x \in FeedIds : S.fd[x].st = "running"}}
